@@ -446,7 +446,7 @@ def enumerate_types(tier):
 
 HELPERS = {
     "Inner": '''#[derive(Serialize, Deserialize, Schema, Default, Clone)]
-pub struct Inner { pub inner_id: i32, pub inner_tag: String }
+pub struct Inner { pub inner_tag: String, pub inner_id: i32 }   // (declared in non-alphabetical order on purpose: the schema keeps its properties sorted)
 fn c16_inner_is_zero(v: &Inner) -> bool { v.inner_id == 0 }
 ''',
     "Comp": '''#[derive(Serialize, Deserialize, Schema, Default, Clone)]
